@@ -215,7 +215,8 @@ pub fn history(seed: u64, idx: u64) -> Case {
                         continue;
                     }
                     let st = server.conn(k);
-                    let f = *rng.pick(&[PingFault::Stale, PingFault::Wrong, PingFault::Error, PingFault::Disconnect, PingFault::Silence]);
+                    let look = PingFault::Lookalike(rng.below(5) as u8);
+                    let f = *rng.pick(&[PingFault::Stale, PingFault::Wrong, look, look, PingFault::Error, PingFault::Disconnect, PingFault::Silence]);
                     if rng.chance(1, 5) {
                         st.lock().unwrap().kill = true;
                         for _ in 0..2000 {
@@ -232,7 +233,7 @@ pub fn history(seed: u64, idx: u64) -> Case {
                         st.lock().unwrap().next_ping = Some(f);
                         log.push(format!("next PING on conn {} gets {:?}", k, f));
                     }
-                    *counters.entry(format!("fault:{:?}", f)).or_insert(0) += 1;
+                    *counters.entry(format!("fault:{}", format!("{:?}", f).split('(').next().unwrap())).or_insert(0) += 1;
                     let _ = dead.insert(k);
                     nontrivial = true;
                 }
